@@ -72,7 +72,10 @@ def run(ctx):
     cfg = CFG(ex)
     rb = [cfg.node_of(c) for c in calls_in(ex, shallow=True) if call_name(c) == "self._perform_rollbacks"]
     if len(rb) != 1:
-        raise AnalysisError("exec handler: single _perform_rollbacks call not found", lc.EXEC)
+        r2.violation(f"{m.rel}:{lc.EXEC}:rollback-call", f"the exec handler calls _perform_rollbacks {len(rb)} times (expected once, before resources are consumed): conflicting handle states are not rolled back before the task runs", m.rel, ex.lineno)
+        for r in ctx.rules:
+            r.floor = 0
+        return
     for c in calls_in(ex, shallow=True):
         if call_name(c) == "self._consume_resources":
             r2.check(cfg.dominates(rb[0], cfg.node_of(c)), f"{m.rel}:{lc.EXEC}:rollback-before-consume", "resources can be consumed without rolling back conflicting handle states first", m.rel, c.lineno)
